@@ -5,6 +5,10 @@ proof:          lean/PdshVerif/Props/C06.lean (every stdio call of the relay mod
 correspondence: harness/relay_harness.c = unmodified dsh.c/err.c/cbuf.c driven in-process, every stdio
                 call (one fputs = one atomic write under the FILE lock) recorded, vs `pdshmodel relay`
 oracle:         real code's stdio calls vs `pdshmodel relay spec` (Relay/Spec.lean: c06Ok, labelOf)
+scheduler:      the unmodified dsh.c under the controlled scheduler (vlib/relay_sched.py): workers interleaved
+                at EVERY stdio call (uniform, PCT, preempt-at-each-fputs; thorough: all io interleavings of
+                tiny configurations); the global fputs log is a shuffle of the per-stream call lists Lean
+                `runStream` predicts, and every call is one whole record with the right label
 supporting:     real pdsh -R exec runs: whole stdout/stderr parsed as a shuffle of whole per-host records;
                 target sets with/without domains go through dsh()'s own domain loop
 The procedure is shared with C05: vlib/relay.py:run_check.
